@@ -34,6 +34,15 @@ def comment_lines(msg):
     also the lines after a line break inside a quoted atom, gets a '# ' prefix.'''
     return ''.join('# ' + line + '\n' for line in re.split(r'\r\n|\r|\n', msg))
 
+def _debug_str(x):
+    '''like str(x), but also uses str() for the members of lists, tuples and dicts
+    (their default str() shows the members' repr(), i.e. memory addresses).'''
+    if isinstance(x, (list, tuple)):
+        return '[' + ', '.join(_debug_str(i) for i in x) + ']'
+    if isinstance(x, dict):
+        return '{' + ', '.join(f'{_debug_str(k)}: {_debug_str(v)}' for k, v in x.items()) + '}'
+    return str(x)
+
 class PredicateList:
     def __init__(self,head,tail):
         self.head = head
@@ -211,11 +220,11 @@ class YPPrologVisitor(prologVisitor):
         if hasattr(attr, '__call__') and attr.__name__[:5] == 'visit' \
             and attr.__name__ not in ['visitTerminal', 'visitChildren', 'visit']:
             def decorated_func(*args, **kwargs):
-                self._debug(f'{" "*2*self.debug_indent}{attr.__name__}, ctx = {args[0]!r} {"{"}')
+                self._debug(f'{" "*2*self.debug_indent}{attr.__name__}, ctx = {type(args[0]).__name__} {"{"}')
                 self.debug_indent += 1
                 result = attr(*args, **kwargs)
                 self.debug_indent -= 1
-                self._debug(f'{" "*2*self.debug_indent}{"}"} -> {result} :: {result!r} # {attr.__name__}')
+                self._debug(f'{" "*2*self.debug_indent}{"}"} -> {_debug_str(result)} :: {type(result).__name__} # {attr.__name__}')
                 return result
             return decorated_func
         else:
